@@ -19,7 +19,7 @@ QUICK = {"msp430", "6502", "stm8", "65816", "6800", "riscv", "6809"}
 def jobs(tier):
     js = []
     for cpu, name, pre, post, vmax, bpa in FORMS:
-        if tier == "quick" and cpu not in QUICK: continue
+        if tier == "quick" and (cpu not in QUICK or name == "li"): continue      # li: 32-bit operand space, ~9 min, thorough only
         for opt in (0, 1):
             d = {"CPUNAME": '"%s"' % cpu, "PRE": '"%s"' % pre, "POST": '"%s"' % post, "VMAX": "%du" % vmax, "BPA": bpa}
             if opt: d["OPTIMIZE"] = None
